@@ -218,6 +218,82 @@ def label_case(rec, pvl, key, tier, tmp, holder):
                     rec.count("no_token_after_END_confirmed")
 
 
+BLOCKS = (64, 256, 512, 1000, 1024, 2048, 4096, 8192)
+
+
+def straddle_label(block, ch, shift, only_last=False):
+    """bytes of a label (ending in END) in which the multi-byte character
+    *ch* has *shift* of its bytes before a multiple of *block* (once in the
+    first block boundary - unless only_last - and once at the second, just
+    before END)."""
+    chb = ch.encode("utf-8")
+    head = b'/* ' 
+    stem = b' */\nFIRST = 1\nNOTE = "ab'
+    n = block - shift - len(head) - len(stem)
+    if n < 0:
+        return None
+    label = head + b"p" * n + stem + (b"x" * len(chb) if only_last else chb) + b'cd"\n'
+    assert only_last or label.index(chb) == block - shift
+    label += b"".join(b'K%d = "v%d"\n' % (k, k) for k in range(3))
+    # a second one, one block further on
+    fill = 2 * block - shift - len(label) - len(b'SECOND = "') 
+    if fill > 4:
+        label += b"/*" + b"q" * (fill - 5) + b"*/\n" + b'SECOND = "' + chb + b'"\n'
+    elif only_last:
+        return None
+    label += b"LAST = 2\nEND"
+    return label
+
+
+def straddle_case(rec, pvl, block, ch, shift, tmp, with_data):
+    """A label longer than *block* bytes with the multi-byte character *ch*
+    placed so that *shift* of its bytes lie before a multiple of *block*
+    (0: it starts exactly there), and - with_data - undecodable data right
+    behind END.  Every byte-wise way in must give the module of the label."""
+    label = straddle_label(block, ch, shift)
+    if label is None:
+        return
+    text = label.decode("utf-8")
+    st, base = load(pvl, "default", text, parser=pvl.parser.OmniParser())
+    if st != "ok":
+        rec.violation(CHECK, "default", "entry-point-raised",
+                      {"route": "loads(str)", "tail": "straddle", "exc": st},
+                      {"label": text[-300:], "block": block}, str(base)[:200])
+        return
+    base_snap = snapshot(base)
+    data = label + (b"\n\xff\xfe\x00\x81data" + b"\x00" * 40 if with_data else b"\n")
+    path = os.path.join(tmp, "straddle.lbl")
+    with open(path, "wb") as f:
+        f.write(data)
+    rec.case(("straddle", block, ch, shift, with_data), True)
+    rec.count("multibyte_character_of_the_label_at_a_block_boundary")
+    rs = routes(pvl, path, data, not with_data)
+    for rname, fn in rs.items():
+        rec.count(f"route[{rname}]")
+        feats = {"route": rname, "tail": "binary" if with_data else "none",
+                 "non_ascii_label": True, "character_straddles_multiple_of": block
+                 if shift else 0, "reader": "default"}
+        wit = {"block": block, "character": ch, "bytes_before_the_boundary": shift,
+               "data_behind_END": with_data, "route": rname,
+               "label_tail": text[-200:]}
+        try:
+            with common.cpu_limit(120):
+                m = fn()
+        except common.CaseTimeout:
+            rec.inconc(f"CPU budget exceeded in {rname} (straddle)")
+            continue
+        except Exception as e:
+            rec.violation(CHECK, "default", "entry-point-raised",
+                          {**feats, "exc": type(e).__name__}, wit,
+                          f"{type(e).__name__}: {e}"[:300])
+            continue
+        if snapshot(m) != base_snap:
+            d = compare(base, m, EXACT)
+            rec.violation(CHECK, "default", "entry-point-differs-from-loads", feats,
+                          wit, f"{d}: got {[k for k, _ in list(m)]} for "
+                               f"{[k for k, _ in list(base)]}"[:300])
+
+
 def dump_case(rec, pvl, key, tmp):
     rng = random.Random(key)
     dialect = rng.choice(("PDS3", "PVL", "ODL", "ISIS"))
@@ -298,6 +374,18 @@ def shard(i, n, tier, seed, rec, hb):
         for j in range(i, total, n):
             hb.beat()
             label_case(rec, pvl, f"C09-{seed}-{j}", tier, tmp, holder)
+        # multi-byte characters of the label itself at read-block boundaries
+        k = 0
+        for block in BLOCKS:
+            if tier == "quick" and block > 4096:
+                continue
+            for ch in ("\xe9", "\u20ac", "\U0001F600"):
+                for shift in range(len(ch.encode("utf-8"))):
+                    for with_data in (True, False):
+                        k += 1
+                        if k % n == i:
+                            hb.beat()
+                            straddle_case(rec, pvl, block, ch, shift, tmp, with_data)
         dumps_n = 400 if tier == "quick" else 8000
         for j in range(i, dumps_n, n):
             hb.beat()
@@ -310,6 +398,7 @@ def finish_kwargs(rec, tier):
     req = ["trace_runs", "no_token_after_END_confirmed", "tail[random-binary]",
            "tail[utf8-text]", "tail[nuls]", "tail[undecodable-at-buffer-boundary]",
            "tail[multibyte-straddling-block-boundary]",
+           "multibyte_character_of_the_label_at_a_block_boundary",
            "tail[none]", "route[load(text stream)]", "route[load(binary stream)]",
            "route[loadu(file URL)]", "route[loads(bytes)]", "route[loads(str)]",
            "dump_target[binary stream]", "dump_target[text stream]",
